@@ -182,6 +182,7 @@ namespace Givaro
 
     inline Modular<Log16>& Modular<Log16>::operator=( const Modular<Log16>& F)
     {
+        if (this == &F) return *this; // self-assignment would release the tables it keeps using
 
         F.assign(const_cast<Element&>(one),F.one);
         F.assign(const_cast<Element&>(zero),F.zero);
